@@ -172,6 +172,7 @@ import "github.com/biogo/biogo/alphabet"
 //@   ensures [before] forall c int, r int :: 0 <= c && c < len(s.Seq) && 0 <= r && r < i ==> s.Seq[c][r] == old(s.Seq[c][r])
 //@   ensures [after]  forall c int, r int :: 0 <= c && c < len(s.Seq) && i <= r && r < old(len(s.Seq[0])) - 1 ==> s.Seq[c][r] == old(s.Seq[c][r+1])
 //@   ensures [annotations] len(s.SubAnnotations) == old(len(s.SubAnnotations)) - 1
+//@   ensures [wf] wf(s)
 //@   ensures [annotations-before] forall r int :: 0 <= r && r < i ==> s.SubAnnotations[r] == old(s.SubAnnotations[r])
 //@   ensures [annotations-after]  forall r int :: i <= r && r < len(s.SubAnnotations) ==> s.SubAnnotations[r] == old(s.SubAnnotations[r+1])
 //@   assigns s.Seq[*], s.Seq[*][*], s.SubAnnotations, s.SubAnnotations[*]
@@ -192,6 +193,7 @@ import "github.com/biogo/biogo/alphabet"
 //@   ensures [shape]   s.Seq == old(s.Seq) && forall c int :: 0 <= c && c < len(s.Seq) ==> s.Seq[c] == old(s.Seq[c])
 //@   ensures [letters] forall c int, r int :: 0 <= c && c < len(s.Seq) && 0 <= r && r < len(s.Seq[0]) ==> s.Seq[c][r] == ctab(s.Alpha, old(s.Seq[len(s.Seq)-1-c][r]))
 //@   ensures [strand]  s.Strand == -old(s.Strand) && s.Offset == old(s.Offset) && s.Alpha == old(s.Alpha)
+//@   ensures [wf]      wf(s)
 //@   assigns s.Seq[*][*], s.Strand
 //@   loop 1 assigns s.Seq[*][*]
 //@   loop 1 invariant 0 <= i && j == len(rs)-1-i && i <= j+1 && rs == old(s.Seq) && len(comp) == 256 && arr(comp) == tabArr(s.Alpha)
@@ -221,6 +223,7 @@ import "github.com/biogo/biogo/alphabet"
 //@   ensures [before] forall c int, r int :: 0 <= c && c < len(s.Seq) && 0 <= r && r < i ==> s.Seq[c][r] == old(s.Seq[c][r])
 //@   ensures [after]  forall c int, r int :: 0 <= c && c < len(s.Seq) && i <= r && r < old(len(s.Seq[0])) - 1 ==> s.Seq[c][r] == old(s.Seq[c][r+1])
 //@   ensures [annotations] len(s.SubAnnotations) == old(len(s.SubAnnotations)) - 1
+//@   ensures [wf] qwf(s)
 //@   ensures [annotations-before] forall r int :: 0 <= r && r < i ==> s.SubAnnotations[r] == old(s.SubAnnotations[r])
 //@   ensures [annotations-after]  forall r int :: i <= r && r < len(s.SubAnnotations) ==> s.SubAnnotations[r] == old(s.SubAnnotations[r+1])
 //@   assigns s.Seq[*], s.Seq[*][*], s.SubAnnotations, s.SubAnnotations[*]
@@ -241,6 +244,7 @@ import "github.com/biogo/biogo/alphabet"
 //@   ensures [shape]   s.Seq == old(s.Seq) && forall c int :: 0 <= c && c < len(s.Seq) ==> s.Seq[c] == old(s.Seq[c])
 //@   ensures [letters] forall c int, r int :: 0 <= c && c < len(s.Seq) && 0 <= r && r < len(s.Seq[0]) ==> s.Seq[c][r].L == ctab(s.Alpha, old(s.Seq[len(s.Seq)-1-c][r]).L) && s.Seq[c][r].Q == old(s.Seq[len(s.Seq)-1-c][r]).Q
 //@   ensures [strand]  s.Strand == -old(s.Strand) && s.Offset == old(s.Offset) && s.Alpha == old(s.Alpha)
+//@   ensures [wf]      qwf(s)
 //@   assigns s.Seq[*][*], s.Strand
 //@   loop 1 assigns s.Seq[*][*]
 //@   loop 1 invariant 0 <= i && j == len(rs)-1-i && i <= j+1 && rs == old(s.Seq) && len(comp) == 256 && arr(comp) == tabArr(s.Alpha)
@@ -266,6 +270,7 @@ import "github.com/biogo/biogo/alphabet"
 //@ func (*Seq).Reverse
 //@   property C05
 //@   requires s != nil
+//@   ensures [wf]      old(wf(s)) ==> wf(s)
 //@   ensures [shape]   len(s.Seq) == old(len(s.Seq)) && arr(s.Seq) == old(arr(s.Seq)) && off(s.Seq) == old(off(s.Seq))
 //@   ensures [columns] forall c int :: 0 <= c && c < len(s.Seq) ==> s.Seq[c] == old(s.Seq[len(s.Seq)-1-c])
 //@   ensures [strand]  s.Strand == 0 && s.Offset == old(s.Offset)
@@ -278,6 +283,7 @@ import "github.com/biogo/biogo/alphabet"
 //@ func (*QSeq).Reverse
 //@   property C05
 //@   requires s != nil
+//@   ensures [wf]      old(qwf(s)) ==> qwf(s)
 //@   ensures [shape]   len(s.Seq) == old(len(s.Seq)) && arr(s.Seq) == old(arr(s.Seq)) && off(s.Seq) == old(off(s.Seq))
 //@   ensures [columns] forall c int :: 0 <= c && c < len(s.Seq) ==> s.Seq[c] == old(s.Seq[len(s.Seq)-1-c])
 //@   ensures [strand]  s.Strand == 0 && s.Offset == old(s.Offset)
